@@ -52,6 +52,7 @@ type Gen struct {
 	ethNonce  uint64
 	olvmNonce map[int]uint64 // next nonce per Ethereum-keyed account, as far as the generator can tell
 	olvmCodes []keys.Address // addresses at which the generator believes it has created a contract
+	olvmAfter int            // 1+index of the sender whose next transaction follows a rejected one at once, 0 = none
 }
 
 // genExt is one submitted Ethereum-side transaction and who has reported on it.
@@ -141,7 +142,7 @@ func (g *Gen) Next(wt Weights) GenTx {
 		}
 	}
 	if g.W.Olvm != nil && wt.Olvm > 0 && g.Height >= g.W.P.Frankenstein {
-		if g.R.Intn(tot+wt.Olvm) >= tot {
+		if g.olvmAfter > 0 || g.R.Intn(tot+wt.Olvm) >= tot {
 			return g.olvm()
 		}
 	}
@@ -467,6 +468,13 @@ func (g *Gen) olvm() GenTx {
 		g.olvmNonce = map[int]uint64{}
 	}
 	i := g.R.Intn(len(ow.Eth))
+	follow := g.olvmAfter > 0
+	if follow {
+		// a transaction the state transition rejected after it had bought its gas is followed at
+		// once by a good one of the same sender: nothing of the first may be left in the EVM's
+		// object cache for the second to build on
+		i, g.olvmAfter = g.olvmAfter-1, 0
+	}
 	from := ow.Eth[i]
 	nonce := g.olvmNonce[i]
 	price := big.NewInt(10000000000)
@@ -493,6 +501,9 @@ func (g *Gen) olvm() GenTx {
 		}
 		return &a
 	}
+	if follow {
+		return mk("OLVM_SEND", "valid-after-rejected", target(), int64(1+g.R.Intn(1000)), nil, 21000, OlvmTweak{}, true)
+	}
 	switch x := g.R.Intn(20); {
 	case x < 6:
 		return mk("OLVM_SEND", "valid", target(), int64(1+g.R.Intn(1000)), nil, 21000+int64(g.R.Intn(3))*10000, OlvmTweak{}, true)
@@ -516,8 +527,15 @@ func (g *Gen) olvm() GenTx {
 	case x < 17:
 		return mk("OLVM_SEND", "more-than-balance", target(), 1, nil, 21000, OlvmTweak{SignKey: ow.Eth[(i+1)%len(ow.Eth)]}, false)
 	case x < 18:
-		// all the account holds: the gas cannot be paid on top
-		return mk("OLVM_SEND", "value-is-whole-balance", target(), 1000000000000000000, nil, 21000, OlvmTweak{}, false)
+		// all the account holds, or more: the gas can be bought, the value cannot be paid on top
+		// (rejected by the state transition itself, after buyGas)
+		if g.R.Bool() {
+			g.olvmAfter = i + 1
+		}
+		g.Kinds["OLVM_SEND"]++
+		funds := oltUnits(g.W.P.AcctFunds)
+		twice := new(big.Int).Mul(funds.BigInt(), big.NewInt(2))
+		return GenTx{Kind: "OLVM_SEND", Note: "value-above-balance", Bytes: ow.OlvmTx(from, target(), nonce, twice, nil, 21000, price, OlvmTweak{}), Signer: []keys.Address{from.Addr}}
 	default:
 		// out of gas in a call: executed, reverted, all gas charged
 		to := ow.Eth[g.R.Intn(len(ow.Eth))].Addr
